@@ -1,7 +1,91 @@
-(* Properties_C47.v — C47: helper replies reach the request that asked. Statements only. *)
+(* Properties_C47.v — C47: helper replies reach the request that asked. Statements only; proofs in AuthhelperProofs.v.
+   The reader model (hread = helperHandleRead + helperReturnBuffer + popRequest, one call per read(2) chunk) is in
+   AuthhelperModel.v. `spec_stream` is the reading-independent meaning of a reply stream: every complete line, by
+   itself, selects the waiting request by the decimal number it starts with (concurrent helpers; the oldest request
+   otherwise) and hands it the rest of the line. `dsim` compares callback sequences up to blanks at both ends of
+   the reply text; `wf` says that no line of the stream starts with a blank (concurrent protocol). *)
 Require Import SquidV.Bytes SquidV.AuthhelperModel SquidV.AuthhelperProofs.
 Local Open Scope N_scope.
 
-Theorem C47_eof_drops_everything : forall st, h_reqs (fst (heof st)) = [].
-Proof. exact heof_drops. Qed.
-Print Assumptions C47_eof_drops_everything.
+(* for EVERY request table, EVERY reply stream and EVERY way of cutting it into reads, the callbacks are those of
+   the per-line reading: all of them when the helper was not killed meanwhile ("spoke without being spoken to"),
+   a prefix of them otherwise *)
+Theorem C47_dispatch_follows_lines_for_every_fragmentation : forall c st chunks,
+  fresh_st (h_reqs st) st -> wf (hc_conc c) (concat chunks) ->
+  (exists k, dsim (snd (hreads c st chunks)) (firstn k (spec_stream (hc_conc c) (h_reqs st) (concat chunks)))) /\
+  (h_closed (fst (hreads c st chunks)) = false ->
+   dsim (snd (hreads c st chunks)) (spec_stream (hc_conc c) (h_reqs st) (concat chunks))).
+Proof. exact dispatch_is_spec. Qed.
+Print Assumptions C47_dispatch_follows_lines_for_every_fragmentation.
+
+(* two fragmentations of the same bytes give the same callbacks *)
+Theorem C47_fragmentation_independent : forall c st chunks1 chunks2,
+  fresh_st (h_reqs st) st -> concat chunks1 = concat chunks2 -> wf (hc_conc c) (concat chunks1) ->
+  h_closed (fst (hreads c st chunks1)) = false -> h_closed (fst (hreads c st chunks2)) = false ->
+  dsim (snd (hreads c st chunks1)) (snd (hreads c st chunks2)).
+Proof. exact fragmentation_independent. Qed.
+Print Assumptions C47_fragmentation_independent.
+
+(* a reply is applied only to the request waiting on the channel whose number starts that reply line *)
+Theorem C47_reply_applied_to_its_channel : forall c st chunks tag d,
+  hc_conc c = true -> fresh_st (h_reqs st) st -> wf true (concat chunks) ->
+  In (tag, d) (snd (hreads c st chunks)) ->
+  exists l, In l (fst (split_lf (concat chunks))) /\ (0 <= line_number l)%Z /\
+            In (Z.to_N (line_number l), tag) (h_reqs st).
+Proof. exact reply_applied_to_its_channel. Qed.
+Print Assumptions C47_reply_applied_to_its_channel.
+
+(* replies for channels nobody waits on (unknown, already answered, negative) are applied to no request *)
+Theorem C47_unknown_channel_dropped : forall c st chunks,
+  hc_conc c = true -> fresh_st (h_reqs st) st -> wf true (concat chunks) ->
+  (forall l, In l (fst (split_lf (concat chunks))) ->
+             (line_number l < 0)%Z \/ forall tag, ~ In (Z.to_N (line_number l), tag) (h_reqs st)) ->
+  snd (hreads c st chunks) = [].
+Proof. exact unknown_channel_dropped. Qed.
+Print Assumptions C47_unknown_channel_dropped.
+
+(* helpers without channels: over any sequence of submissions and reads the callbacks go to the transactions in the
+   order in which they asked (`order` = current + sent + queued transactions, oldest first) *)
+Theorem C47_nonconcurrent_fifo : forall c ops st,
+  hc_conc c = false -> (forall op, In op ops -> op <> HEof) ->
+  order st ++ submitted ops = tags (snd (hrun c st ops)) ++ order (fst (hrun c st ops)).
+Proof. exact nonconcurrent_fifo. Qed.
+Print Assumptions C47_nonconcurrent_fifo.
+
+(* REFUTED at full strength ("the request whose channel ID it carries"): the number is read with strtol into an
+   int, so the line `4294967298 X` is applied to the request on channel 2 (known finding C47-channel-number-wrapped,
+   replayed against the running proxy by the check) *)
+Theorem C47_channel_number_wraps_refuted :
+  snd (hreads cfg16 two_waiting [bytes_of [52;50;57;52;57;54;55;50;57;56;32;88;10]%nat]) = [(2, Some [88])] /\
+  line_number (bytes_of [52;50;57;52;57;54;55;50;57;56;32;88]%nat) = 2%Z.
+Proof. exact channel_number_wraps. Qed.
+Print Assumptions C47_channel_number_wraps_refuted.
+
+(* REFUTED: exact equality of the reply text under fragmentation. `1 OK CR LF` in one read gives the text `OK`,
+   cut between CR and LF it gives `OK CR`, which Helper::Reply::finalize does not recognise as OK
+   (known finding C47-crlf-split-result, replayed against the running proxy) *)
+Theorem C47_crlf_cut_changes_text_refuted :
+  let one := snd (hreads cfg16 two_waiting [bytes_of [49;32;79;75;13;10]%nat]) in
+  let two := snd (hreads cfg16 two_waiting [bytes_of [49;32;79;75;13]%nat; bytes_of [10]%nat]) in
+  one = [(1, Some (bytes_of [79;75]%nat))] /\ two = [(1, Some (bytes_of [79;75;13]%nat))] /\
+  fst (fst (finalize (bytes_of [79;75]%nat))) = ROkay /\ fst (fst (finalize (bytes_of [79;75;13]%nat))) = RUnknown.
+Proof. exact crlf_cut_changes_text. Qed.
+Print Assumptions C47_crlf_cut_changes_text_refuted.
+
+(* REFUTED without the `wf` hypothesis: a line that starts with a blank is channel 1's reply when read at once and
+   is read as channel 0 (dropped) when the read ends after the blank *)
+Theorem C47_leading_blank_cut_refuted :
+  snd (hreads cfg16 two_waiting [bytes_of [32;49;32;79;75;10]%nat]) = [(1, Some (bytes_of [79;75]%nat))] /\
+  snd (hreads cfg16 two_waiting [bytes_of [32]%nat; bytes_of [49;32;79;75;10]%nat]) = [].
+Proof. exact leading_blank_cut_changes_channel. Qed.
+Print Assumptions C47_leading_blank_cut_refuted.
+
+(* the hypotheses are satisfiable: two requests waiting on channels 1 and 2; a stream cut inside a line, answering
+   out of order, with a CR LF terminator *)
+Example C47_example_state : fresh_st (h_reqs two_waiting) two_waiting /\ h_reqs two_waiting = [(1, 1); (2, 2)].
+Proof. exact two_waiting_fresh. Qed.
+Example C47_example_stream :
+  wf true (concat [bytes_of [50;32;79]%nat; bytes_of [75;10;49]%nat; bytes_of [32;69;82;82;13;10]%nat]) /\
+  snd (hreads cfg16 two_waiting [bytes_of [50;32;79]%nat; bytes_of [75;10;49]%nat; bytes_of [32;69;82;82;13;10]%nat])
+  = [(2, Some (bytes_of [79;75]%nat)); (1, Some (bytes_of [69;82;82]%nat))].
+Proof. exact example_stream_wf. Qed.
